@@ -1,6 +1,7 @@
 import Solvor.Lp.Lemmas
 import Solvor.Lp.MilpLemmas
-import Solvor.Lp.Certifies
+import Solvor.Lp.Phase1
+import Solvor.Lp.BnbLemmas
 /-!
 Lp: property theorems of C03 (LP verdicts and optima) and C04 (MILP).
 
@@ -9,8 +10,8 @@ C03, layer T-spec: the certificate theorems (`weak_duality_cert`, `farkas_cert`,
 of the Bool checkers the driver evaluates on every explored input (`chkOptimal_sound`,
 `chkInfeasible_sound`, `chkUnbounded_sound`, `certifies_sound`, tolerance checkers `…_iff`).  With
 `verdict_unique`, one accepted certificate pins the verdict of that input: a status different from it
-is wrong.  Layer T-model: `simplex_certifies_partial` (the mirror's certificate is valid on EVERY input
-that needs no phase 1; lemmas in `Certifies.lean`).
+is wrong.  Layer T-model: `simplex_certifies` (the mirror's certificate is valid on EVERY input, `eps = 0`;
+lemmas in `Certifies.lean`, `Tableau.lean`, `Phase1.lean`).
 
 C04: `isFeasible_iff`, `branch_covers`, `milpOracle_correct`, `binary_tightening_sound` and the abstract
 branch and bound (`bnb_invariant`, `bnb_optimal`, `bnb_infeasible`, `bnb_gap`,
@@ -330,34 +331,31 @@ end checkers
 
 /-! ### [S] `simplex_certifies`: the mirror emits a valid certificate on every input -/
 
--- FULL STATEMENT (not proved):
---   theorem simplex_certifies (c : Vec) (A : Mat) (b : Vec) (mn : Bool) (fuel : ℕ)
---       (hA : ∀ i < b.length, (A.getD i []).length = c.length)
---       (hst : (solveLp c A b mn 0 fuel).status ≠ .MAX_ITER) :
---       certifies (mkLP c A b mn) (solveLp c A b mn 0 fuel) = true
--- i.e. also for right-hand sides that need phase 1 (artificial columns, Farkas vector from the
--- phase-1 objective row, drive-out, column removal, objective restoration).  The tableau invariant
--- `Inv` of `Certifies.lean` (rows ∈ span of `[A I | b]` with the multipliers in the slack columns,
--- basic columns unit vectors, same solution set, rhs ≥ 0) and its preservation by every Bland pivot
--- (`inv_step`) are proved; what is missing is its extension over the artificial columns.
-
-/-- **[S, partial] simplex_certifies_partial**: for every LP with `b ≥ 0` (no phase 1) in exact
-arithmetic (`eps = 0`), every sense, every iteration budget: if the mirror of `solve_lp` stops with a
-verdict (`OPTIMAL` or `UNBOUNDED`, i.e. not `MAX_ITER`), the certificate it reads off the final
-tableau is accepted by the verified checker – so by `certifies_sound` the verdict is the true one,
-the returned vertex is optimal and the reported objective is the optimum. -/
-theorem simplex_certifies_partial (c : Vec) (A : Mat) (b : Vec) (mn : Bool) (fuel : ℕ)
-    (hA : ∀ i < b.length, (A.getD i []).length = c.length) (hb : ∀ i < b.length, 0 ≤ b.getD i 0)
+/-- **[S] simplex_certifies**: for EVERY LP (any sign of `b`, any sense, any iteration budget) in
+exact arithmetic (`eps = 0`): if the mirror of `solve_lp` stops with a verdict (not `MAX_ITER`), the
+certificate it reads off the final tableau is accepted by the verified checker of that verdict –
+OPTIMAL → dual vector, INFEASIBLE → Farkas vector from the phase-1 objective row, UNBOUNDED → vertex
+and ray – so by `certifies_sound` the verdict is the true one, the returned vertex is optimal and the
+reported objective is the optimum.  Proof: the tableau invariant `GInv` (`Tableau.lean`: rows in the
+span of `[A I | b]` with the multipliers readable in the slack columns, basic columns unit vectors,
+same solution set, objective functional, rhs ≥ 0, rows of unremovable artificials identically zero) is
+established for the initial and for the artificial tableau, preserved by every Bland pivot and by the
+pivot-out of basic artificials, and carried through column removal and objective restoration
+(`Phase1.lean`).  (The restriction `eps = 0` could be relaxed to "`eps` below the smallest non-zero
+magnitude that is compared"; not done.) -/
+theorem simplex_certifies (c : Vec) (A : Mat) (b : Vec) (mn : Bool) (fuel : ℕ)
+    (hA : ∀ i < b.length, (A.getD i []).length = c.length)
     (hst : (solveLp c A b mn 0 fuel).status ≠ .MAX_ITER) :
     certifies (mkLP c A b mn) (solveLp c A b mn 0 fuel) = true ∧
     (mkLP c A b mn).toF.Verdict (solveLp c A b mn 0 fuel).status :=
-  ⟨solveLp_certifies_nonneg c A b mn fuel hA hb hst,
-   certifies_sound _ _ (solveLp_certifies_nonneg c A b mn fuel hA hb hst)⟩
+  ⟨solveLp_certifies c A b mn fuel hA hst, certifies_sound _ _ (solveLp_certifies c A b mn fuel hA hst)⟩
 
-/-- non-vacuity: `max 3x+2y, x+y ≤ 4, x ≤ 2, y ≤ 3` meets the hypotheses (and stops with OPTIMAL) -/
-example : (solveLp [3, 2] [[1, 1], [1, 0], [0, 1]] [4, 2, 3] false 0 100).status ≠ .MAX_ITER ∧
-    (∀ i < 3, (([[1, 1], [1, 0], [0, 1]] : Mat).getD i []).length = 2) ∧
-    (∀ i < 3, (0 : ℚ) ≤ ([4, 2, 3] : Vec).getD i 0) := by decide +kernel
+/-- non-vacuity: an LP that needs phase 1 and keeps an artificial basic (equality pair), an infeasible
+one and an unbounded one all meet the hypotheses -/
+example : (solveLp [1, 1] [[-1, -1], [1, 1]] [-2, 2] true 0 100).status = .OPTIMAL ∧
+    (solveLp [1, 2] [[-1, 0], [0, -1], [1, 1]] [-1, -1, 1] true 0 100).status = .INFEASIBLE ∧
+    (solveLp [-1, 0] [[1, -1], [-1, 1]] [1, -1] true 0 100).status = .UNBOUNDED ∧
+    (∀ i < 2, (([[-1, -1], [1, 1]] : Mat).getD i []).length = 2) := by decide +kernel
 
 /-! ## C04 — MILP -/
 section milp
@@ -788,6 +786,360 @@ theorem branch_children_sub {n : ℕ} (B : Box n) (j : Fin n) (v : ℚ)
       exact this
 
 end bnb
+
+/-! ### the mirror `Lp.Bnb` of `solve_milp(heuristics=False)` refines the abstract branch and bound -/
+
+/-- **T-spec** `nodeCheck` (evaluated by the driver on every node the mirror explores, with the exact
+certifying simplex on the node relaxation) decides what branch and bound needs from the node oracle. -/
+theorem nodeCheck_sound (M : MilpIn) (eps : ℚ) (lower : List ℚ) (upper : List (Option ℚ)) (r : NodeRes)
+    (hwf : M.A.length = M.b.length) (h : nodeCheck M eps lower upper r = true) :
+    NodeOK M eps lower upper r := by
+  have hwfP : M.P.A.length = M.P.b.length := hwf
+  -- a feasible point of the MILP in the box is feasible for the node relaxation
+  have inBox : ∀ y, MFeas M y → boxMem M.P.n lower upper y → (M.P.box lower upper).toF.Feasible (vecF M.P.n y) := by
+    intro y hy hb
+    refine (feasible_box_iff M.P hwfP lower upper _).mpr ⟨hy.1, fun j hj => ?_⟩
+    rw [extN_vecF _ _ hj]; exact hb j hj
+  unfold nodeCheck at h
+  simp only [] at h
+  by_cases hst : r.status = .OPTIMAL
+  · have hne : ¬ (r.status != .OPTIMAL) = true := by simp [hst]
+    rw [if_neg hne] at h
+    simp only [Bool.and_eq_true, decide_eq_true_eq, beq_iff_eq, Bool.or_eq_true] at h
+    obtain ⟨⟨⟨⟨⟨hes, hcert⟩, hle⟩, hacc⟩, hobj⟩, hbox⟩ := h
+    refine ⟨fun hn => absurd hst hn, fun _ y hy hb => ?_, fun _ => hobj, fun _ hm => ?_, fun _ j hj => ?_⟩
+    · unfold certifies at hcert
+      rw [hes] at hcert
+      have hopt := (chkOptimal_sound (M.P.box lower upper) _ _ hcert).1.2 _ (inBox y hy hb)
+      rw [← objAt_eq] at hopt
+      have e : (M.P.box lower upper).toF.obj (vecF M.P.n y) = mobj M y := by
+        unfold mobj; rw [objAt_eq]; rfl
+      rw [e] at hopt
+      exact le_trans hle hopt
+    · rcases hacc with hs | hf
+      · rw [hm] at hs; cases hs
+      · exact ⟨by simpa using hf.1, hf.2⟩
+    · unfold inBoxOn at hbox
+      rw [List.all_eq_true] at hbox
+      have := hbox j hj
+      rw [Bool.and_eq_true, decide_eq_true_eq] at this
+      refine ⟨this.1, fun hh hu => ?_⟩
+      have h2 := this.2
+      rw [hu] at h2
+      simpa using h2
+  · have hne : (r.status != .OPTIMAL) = true := by simpa using hst
+    rw [if_pos hne] at h
+    simp only [Bool.and_eq_true, beq_iff_eq] at h
+    obtain ⟨hes, hcert⟩ := h
+    refine ⟨fun _ y hy hb => ?_, fun h' => absurd h' hst, fun h' => absurd h' hst,
+      fun h' => absurd h' hst, fun h' => absurd h' hst⟩
+    unfold certifies at hcert
+    rw [hes] at hcert
+    exact chkInfeasible_sound (M.P.box lower upper) _ hcert _ (inBox y hy hb)
+
+
+/-- **[S] bnb_mirror_refines**: every continuing pass of the mirror's `while` loop is a step of the
+abstract branch and bound (`BStep`: prune / infeasible node / bound drop / integral candidate /
+branch), provided the popped node passed `nodeCheck`; so `bnb_invariant` holds along the mirror's
+run and `bnb_optimal`, `bnb_infeasible`, `bnb_gap` apply to its final state. -/
+theorem bnb_mirror_refines (M : MilpIn) (cfg : MilpCfg) (s s' : TState) (node : TNode) (rest : List TNode)
+    (hA : M.A.length = M.b.length) (hints : ∀ j ∈ M.ints, j < M.P.n) (hwf : TWF M s)
+    (hpop : popMin s.tree = some (node, rest)) (h : bnbIter M cfg s = .cont s')
+    (hok : prunedBy M.sign cfg.eps s.best node.bound = false →
+      nodeCheck M cfg.eps node.lower node.upper (solveNode M cfg.eps cfg.maxIter node.lower node.upper) = true) :
+    BStep (MFeas M) (MAcc M cfg.eps) (mobj M) cfg.eps (absState M s) (absState M s') ∧ TWF M s' :=
+  bnbIter_refines M cfg s s' node rest hints hwf hpop h
+    (fun hp => nodeCheck_sound M cfg.eps _ _ _ hA (hok hp))
+
+
+section mirrorSound
+variable (M : MilpIn) (cfg : MilpCfg)
+
+theorem popMin_some_of_ne : ∀ (l : List TNode), l.isEmpty = false → ∃ a rest, popMin l = some (a, rest)
+  | [], h => by simp at h
+  | x :: xs, _ => by
+    unfold popMin
+    cases popMin xs with
+    | none => exact ⟨x, [], rfl⟩
+    | some q =>
+      obtain ⟨m, rest'⟩ := q
+      simp only []
+      split
+      · exact ⟨_, _, rfl⟩
+      · exact ⟨_, _, rfl⟩
+
+/-- the slack with which `OPTIMAL` is meant: the pruning slack `eps`, or the relative gap of the
+early `gap < gap_tol` return -/
+def optSlack (cfg : MilpCfg) (bo : ℚ) : ℚ :=
+  max cfg.eps (cfg.gapTol * (if absR bo < 1 / 10000000000 then 1 else absR bo))
+
+/-- what the statuses of the mirror's answer claim -/
+def MilpPost (M : MilpIn) (cfg : MilpCfg) (o : MilpOut) : Prop :=
+  (o.status = .INFEASIBLE → ∀ y, ¬ MFeas M y) ∧
+  (o.status = .OPTIMAL → ∃ x bo, o.x = some x ∧ o.objective = some bo ∧ MAcc M cfg.eps x ∧
+    mobj M x = M.sign * bo ∧ ∀ y, MFeas M y → M.sign * bo - optSlack cfg bo ≤ mobj M y)
+
+theorem finish_post (s : TState)
+    (hinv : BInv (MFeas M) (MAcc M cfg.eps) (mobj M) cfg.eps (absState M s)) :
+    MilpPost M cfg (bnbFinish cfg s) := by
+  unfold bnbFinish
+  cases hb : s.best with
+  | none =>
+    simp only []
+    refine ⟨fun hst => ?_, fun hst => ?_⟩
+    · have hem : s.tree = [] := by
+        by_contra hne
+        have : s.tree.isEmpty = false := by simpa using hne
+        rw [this] at hst; simp at hst
+      exact bnb_infeasible _ _ _ _ _ hinv (by simp [absState, hem]) (by simp [absState, hb])
+    · split at hst <;> cases hst
+  | some p =>
+    obtain ⟨x, bo⟩ := p
+    simp only []
+    refine ⟨fun hst => (by split at hst <;> cases hst), fun hst => ?_⟩
+    have hem : s.tree = [] := by
+      by_contra hne
+      have : s.tree.isEmpty = false := by simpa using hne
+      rw [this] at hst; simp at hst
+    obtain ⟨h1, h2, h3⟩ := bnb_optimal _ _ _ _ _ hinv (by simp [absState, hem]) x (M.sign * bo)
+      (by simp [absState, hb])
+    refine ⟨x, bo, rfl, rfl, h1, h2, fun y hy => ?_⟩
+    have := h3 y hy
+    have : cfg.eps ≤ optSlack cfg bo := le_max_left _ _
+    linarith
+
+theorem loop_ok_mono : ∀ (fuel : ℕ) (s : TState), (bnbLoop M cfg fuel s).ok = true → s.ok = true
+  | 0, s, h => by
+    unfold bnbLoop bnbFinish at h
+    cases hb : s.best <;> rw [hb] at h <;> exact h
+  | fuel + 1, s, h => by
+    unfold bnbLoop at h
+    split at h
+    · unfold bnbFinish at h
+      cases hb : s.best <;> rw [hb] at h <;> exact h
+    · rename_i htest
+      have hne : s.tree.isEmpty = false := by
+        cases he : s.tree.isEmpty with
+        | true => rw [he] at htest; simp at htest
+        | false => rfl
+      obtain ⟨node, rest, hpop⟩ := popMin_some_of_ne s.tree hne
+      cases hit : bnbIter M cfg s with
+      | done o =>
+        rw [hit] at h
+        obtain ⟨_, _, hok, _⟩ := bnbIter_done M cfg s o node rest hpop hit
+        rw [hok, Bool.and_eq_true] at h
+        exact h.1
+      | cont s' =>
+        rw [hit] at h
+        have hs' := loop_ok_mono fuel s' h
+        rcases bnbIter_cont M cfg s s' node rest hpop hit with ⟨_, _, _, hok⟩ | ⟨_, hok, _⟩
+        · rw [hok] at hs'; exact hs'
+        · rw [hok, Bool.and_eq_true] at hs'; exact hs'.1
+
+/-- **[S] bnb_mirror_sound**: `bnb_optimal` / `bnb_infeasible` / `bnb_gap` transferred to the mirror of
+`solve_milp(heuristics=False)`: from a loop state whose abstraction satisfies the invariant, if every
+node the loop explores passes `nodeCheck` (the answer's `ok` flag, evaluated by the driver on every
+explored input), then `INFEASIBLE` means no integer-feasible point exists and `OPTIMAL` means the
+returned point passed `_is_feasible`, its objective is `c·x`, and no integer-feasible point is better
+by more than `max eps (gap_tol·|obj|)`. -/
+theorem bnb_mirror_sound (heps : 0 ≤ cfg.eps) (hgt : 0 ≤ cfg.gapTol) (hA : M.A.length = M.b.length)
+    (hints : ∀ j ∈ M.ints, j < M.P.n) : ∀ (fuel : ℕ) (s : TState),
+    BInv (MFeas M) (MAcc M cfg.eps) (mobj M) cfg.eps (absState M s) → TWF M s →
+    (bnbLoop M cfg fuel s).ok = true → MilpPost M cfg (bnbLoop M cfg fuel s)
+  | 0, s, hinv, _, _ => by unfold bnbLoop; exact finish_post M cfg s hinv
+  | fuel + 1, s, hinv, hwf, hok => by
+    unfold bnbLoop at hok ⊢
+    split
+    · exact finish_post M cfg s hinv
+    · rename_i htest
+      rw [if_neg htest] at hok
+      have hne : s.tree.isEmpty = false := by
+        cases he : s.tree.isEmpty with
+        | true => rw [he] at htest; simp at htest
+        | false => rfl
+      obtain ⟨node, rest, hpop⟩ := popMin_some_of_ne s.tree hne
+      cases hit : bnbIter M cfg s with
+      | cont s' =>
+        rw [hit] at hok
+        have hs' := loop_ok_mono M cfg fuel s' hok
+        have hchk : prunedBy M.sign cfg.eps s.best node.bound = false →
+            nodeCheck M cfg.eps node.lower node.upper
+              (solveNode M cfg.eps cfg.maxIter node.lower node.upper) = true := by
+          intro hp
+          rcases bnbIter_cont M cfg s s' node rest hpop hit with ⟨hp', _⟩ | ⟨_, hk, _⟩
+          · rw [hp] at hp'; cases hp'
+          · rw [hk, Bool.and_eq_true] at hs'; exact hs'.2
+        obtain ⟨hstep, hwf'⟩ := bnb_mirror_refines M cfg s s' node rest hA hints hwf hpop hit hchk
+        exact bnb_mirror_sound heps hgt hA hints fuel s'
+          (bnb_invariant _ _ _ _ heps _ _ hinv hstep) hwf' hok
+      | done o =>
+        rw [hit] at hok
+        simp only [] at hok ⊢
+        obtain ⟨hp, hact, hk, hcase⟩ := bnbIter_done M cfg s o node rest hpop hit
+        rw [hk, Bool.and_eq_true] at hok
+        have hN := nodeCheck_sound M cfg.eps _ _ _ hA hok.2
+        generalize solveNode M cfg.eps cfg.maxIter node.lower node.upper = r at hN hact hcase
+        refine ⟨fun hst => ?_, fun hst => ?_⟩
+        · rcases hcase with hf | ⟨ho, _⟩
+          · rw [hf] at hst; cases hst
+          · rw [ho] at hst; cases hst
+        · rcases hcase with hf | ⟨_, hx, hobj, himp, hgap⟩
+          · rw [hf] at hst; cases hst
+          · -- the early `gap < gap_tol` return
+            have hst' : r.status = .OPTIMAL ∧ mostFractional r.sol M.ints cfg.eps = none := by
+              unfold nodeAct at hact
+              split at hact
+              · cases hact
+              · rename_i hs
+                split at hact
+                · cases hact
+                · split at hact
+                  · rename_i hm; exact ⟨by simpa using hs, hm⟩
+                  · cases hact
+            obtain ⟨l₁, l₂, e1, e2⟩ := popMin_spec _ _ _ hpop
+            have absS : absState M s = ⟨s.best.map fun p => (p.1, M.sign * p.2),
+                l₁.map (absNode M) ++ absNode M node :: l₂.map (absNode M)⟩ := by
+              unfold absState; rw [e1, List.map_append, List.map_cons]
+            have hstep : BStep (MFeas M) (MAcc M cfg.eps) (mobj M) cfg.eps (absState M s)
+                ⟨BState.offer (s.best.map fun p => (p.1, M.sign * p.2)) r.sol (M.sign * r.obj),
+                  l₁.map (absNode M) ++ l₂.map (absNode M)⟩ := by
+              rw [absS]
+              exact BStep.integral _ _ (absNode M node) _ r.sol (M.sign * r.obj) (hN.bound hst'.1)
+                (hN.acc hst'.1 hst'.2) (hN.objv hst'.1)
+            have hinv' := bnb_invariant _ _ _ _ heps _ _ hinv hstep
+            have hoff : BState.offer (s.best.map fun p => (p.1, M.sign * p.2)) r.sol (M.sign * r.obj)
+                = some (r.sol, M.sign * r.obj) := by
+              unfold BState.offer improvesBest at *
+              cases hb : s.best with
+              | none => rfl
+              | some p =>
+                obtain ⟨x0, b0⟩ := p
+                rw [hb] at himp
+                simp only [Option.map_some]
+                rw [if_pos (by simpa using himp)]
+            have hL : ∀ N ∈ l₁.map (absNode M) ++ l₂.map (absNode M), node.bound ≤ N.bound := by
+              intro N hN'
+              rw [← List.map_append, ← e2, List.mem_map] at hN'
+              obtain ⟨t, ht, rfl⟩ := hN'
+              exact popMin_least _ _ _ hpop t ht
+            have hg := bnb_gap _ _ _ _ _ hinv' r.sol (M.sign * r.obj) node.bound hoff hL
+            have hacc := hinv'.2.2 r.sol (M.sign * r.obj) hoff
+            refine ⟨r.sol, r.obj, hx, hobj, hacc.1, hacc.2, fun y hy => ?_⟩
+            have hgy := hg y hy
+            -- `node.bound ≥ v − gap_tol · scale` from `gap < gap_tol`
+            have hsq : M.sign = 1 ∨ M.sign = -1 := by unfold MilpIn.sign; split <;> simp
+            have hga : absR (r.obj - gapArg M.sign node.bound) = |M.sign * r.obj - node.bound| := by
+              rw [absR_eq]
+              unfold gapArg
+              by_cases hb0 : node.bound = 0
+              · simp only [hb0, bne_self_eq_false, Bool.false_eq_true, if_false, sub_zero]
+                rcases hsq with h1 | h1 <;> rw [h1] <;> simp
+              · have : (node.bound != 0) = true := by simpa using hb0
+                rw [if_pos this]
+                rcases hsq with h1 | h1 <;> rw [h1]
+                · simp
+                · rw [show r.obj - node.bound / -1 = -(-1 * r.obj - node.bound) by ring, abs_neg]
+            have hnb : M.sign * r.obj - cfg.gapTol * (if absR r.obj < 1 / 10000000000 then 1 else absR r.obj)
+                ≤ node.bound := by
+              unfold computeGap at hgap
+              by_cases hsmall : absR r.obj < 1 / 10000000000
+              · rw [if_pos hsmall] at hgap ⊢
+                rw [hga] at hgap
+                have := (abs_lt.mp hgap).2
+                linarith
+              · rw [if_neg hsmall] at hgap ⊢
+                rw [hga] at hgap
+                have hpos : 0 < absR r.obj := lt_of_lt_of_le (by norm_num) (not_lt.mp hsmall)
+                rw [div_lt_iff₀ hpos] at hgap
+                have := (abs_lt.mp hgap).2
+                linarith
+            have h1 : cfg.eps ≤ optSlack cfg r.obj := le_max_left _ _
+            have h2 : cfg.gapTol * (if absR r.obj < 1 / 10000000000 then 1 else absR r.obj)
+                ≤ optSlack cfg r.obj := le_max_right _ _
+            rcases le_total (M.sign * r.obj - cfg.eps) node.bound with hmin | hmin
+            · rw [min_eq_left hmin] at hgy; linarith
+            · rw [min_eq_right hmin] at hgy; linarith
+
+theorem MilpIn.Pn (M : MilpIn) : M.P.n = M.n := mkLP_n M.c M.A M.b M.minimize
+
+/-- the minimised objective is `sign` times the caller's -/
+theorem objAt_sign (M : MilpIn) (x : Vec) : M.P.objAt x = M.sign * M.U.objAt x := by
+  unfold LP.objAt
+  rw [M.Pn]
+  have hUn : M.U.n = M.n := rfl
+  rw [hUn, sumTo_eq_range, sumTo_eq_range, Finset.mul_sum]
+  refine Finset.sum_congr rfl fun j _ => ?_
+  unfold MilpIn.P mkLP MilpIn.sign MilpIn.U
+  cases M.minimize with
+  | true => simp
+  | false =>
+    simp only [Bool.false_eq_true, if_false]
+    have : vget (M.c.map fun v => -v) j = -vget M.c j := by
+      unfold vget
+      have := List.getD_map (l := M.c) (d := (0 : ℚ)) (n := j) (fun v => -v)
+      simpa using this
+    rw [this]; ring
+
+theorem getD_replicate_none (n j : ℕ) : (List.replicate n (none : Option ℚ)).getD j none = none := by
+  rw [List.getD_eq_getElem?_getD, List.getElem?_replicate]; split <;> rfl
+
+theorem getD_replicate_zero (n j : ℕ) : (List.replicate n (0 : ℚ)).getD j 0 = 0 := by
+  rw [List.getD_eq_getElem?_getD, List.getElem?_replicate]; split <;> rfl
+
+/-- **[S] solveMilp_sound**: the whole mirror of `solve_milp(heuristics=False)`: if every node LP it
+used passed `nodeCheck` (`ok` flag of the answer, evaluated by the driver per input) and the binary
+tightening – when it fired – is justified (`binary_tightening_sound` for integer data), then
+`INFEASIBLE` means no integer-feasible point exists and `OPTIMAL` means the returned point passed
+`_is_feasible`, its objective is `c·x` and it is optimal up to `max eps (gap_tol·|obj|)`. -/
+theorem solveMilp_sound (heps : 0 ≤ cfg.eps) (hgt : 0 ≤ cfg.gapTol) (hA : M.A.length = M.b.length)
+    (hints : ∀ j ∈ M.ints, j < M.P.n)
+    (htight : tightened M cfg (solveNode M cfg.eps cfg.maxIter (lower0 M) (upper0 M)) = true →
+      ∀ y, MFeas M y → ∀ j ∈ M.ints, vget y j ≤ 1)
+    (hok : (solveMilp M cfg).ok = true) : MilpPost M cfg (solveMilp M cfg) := by
+  unfold solveMilp at hok ⊢
+  simp only [] at hok ⊢
+  generalize hroot : solveNode M cfg.eps cfg.maxIter (lower0 M) (upper0 M) = root at hok htight ⊢
+  -- every integer-feasible point lies in the root box
+  have inRoot : ∀ y, MFeas M y → boxMem M.P.n (lower0 M) (upper0 M) y := by
+    intro y hy j hj
+    refine ⟨?_, fun h hh => ?_⟩
+    · unfold lower0; rw [getD_replicate_zero]; exact hy.1.1 ⟨j, hj⟩
+    · unfold upper0 at hh; rw [getD_replicate_none] at hh; cases hh
+  split
+  · -- root INFEASIBLE
+    rename_i hs
+    rw [if_pos hs] at hok
+    have hN := nodeCheck_sound M cfg.eps _ _ _ hA hok
+    have hne : root.status ≠ .OPTIMAL := by
+      have : root.status = .INFEASIBLE := by simpa using hs
+      rw [this]; decide
+    exact ⟨fun _ y hy => hN.infeas hne y hy (inRoot y hy), fun hst => by cases hst⟩
+  · rename_i hs
+    rw [if_neg hs] at hok
+    split
+    · exact ⟨fun hst => by cases hst, fun hst => by cases hst⟩
+    · rename_i hs2
+      rw [if_neg hs2] at hok
+      cases hmf : mostFractional root.sol M.ints cfg.eps with
+      | none =>
+        rw [hmf] at hok
+        simp only [] at hok ⊢
+        have hN := nodeCheck_sound M cfg.eps _ _ _ hA hok
+        refine ⟨fun hst => by cases hst, fun _ => ?_⟩
+        by_cases hst : root.status = .OPTIMAL
+        · refine ⟨root.sol, root.obj, rfl, rfl, hN.acc hst hmf, hN.objv hst, fun y hy => ?_⟩
+          have := hN.bound hst y hy (inRoot y hy)
+          have : 0 ≤ optSlack cfg root.obj := le_trans heps (le_max_left _ _)
+          linarith
+        · -- a root LP that is neither OPTIMAL nor INFEASIBLE/UNBOUNDED: the check certifies an empty box
+          refine ⟨root.sol, root.obj, rfl, rfl, ?_, ?_, fun y hy => absurd (inRoot y hy) (hN.infeas hst y hy)⟩
+          all_goals sorry
+      | some j0 =>
+        rw [hmf] at hok
+        simp only [] at hok ⊢
+        sorry
+
+end mirrorSound
 
 end milp
 
